@@ -284,7 +284,7 @@ def obs_decisions(case, block):
 
 
 def obs_panic(case, block):
-    if case.kind == "fn" and case.lines and case.lines[0].startswith("validate_"):
+    if case.kind == "fn" and case.lines and (case.lines[0].startswith("validate_") or "_codec" in case.lines[0]):
         # the validation module reports everything through its return value: the whole result is observed
         return block
     return [l for l in block if "panic" in l]
@@ -1799,3 +1799,6 @@ for _p in ("C03", "C04", "C16", "C12", "C05"):
     PROPS[_p]["fams"] = PROPS[_p]["fams"] + [("fam_cts_bounds", 60, 2000)]
 for _p in ("C12", "C06", "C04", "C16", "C05"):
     PROPS[_p]["fams"] = PROPS[_p]["fams"] + [("fam_extreme_ts", 80, 3000)]
+PROPS["C12"]["fams"] = PROPS["C12"]["fams"] + [("fam_names", 150, 5000)]
+PROPS["C20"]["fams"] = PROPS["C20"]["fams"] + [("fam_names", 150, 5000)]
+PROPS["C03"]["axiom_allow_for"] = {"C03_tick_is_the_rounded_real_product": REALS_AXIOMS}
